@@ -3,15 +3,237 @@ package main
 import (
 	"go/ast"
 	"go/token"
+	"strconv"
 )
 
-// pvarInfo is filled by analysePVars (package-level variable analysis). Stub until E4 is built.
+// Package-level variable instrumentation (scheduling points for E4). Resolution is syntactic but
+// exact: go/parser resolves identifiers within a file (Ident.Obj); a use of a package-level
+// variable declared in the same file has Obj.Decl = a top-level ValueSpec, one declared in
+// another file of the package is unresolved in this file (listed in File.Unresolved) and its name
+// is in the package's variable set.
+
 type pvarInfo struct {
-	vars map[string]bool
+	vars     map[string]bool         // names of package-level variables (all files)
+	topSpecs map[*ast.ValueSpec]bool // top-level var specs
+	ids      map[string]int          // variable name -> id
+	names    []string
 }
 
 func analysePVars(fset *token.FileSet, dir string, files []*ast.File) (*pvarInfo, error) {
-	return nil, nil
+	info := &pvarInfo{vars: map[string]bool{}, topSpecs: map[*ast.ValueSpec]bool{}, ids: map[string]int{}}
+	for _, f := range files {
+		for _, d := range f.Decls {
+			gd, ok := d.(*ast.GenDecl)
+			if !ok || gd.Tok != token.VAR {
+				continue
+			}
+			for _, s := range gd.Specs {
+				vs := s.(*ast.ValueSpec)
+				info.topSpecs[vs] = true
+				for _, n := range vs.Names {
+					if n.Name == "_" {
+						continue
+					}
+					info.vars[n.Name] = true
+					if _, ok := info.ids[n.Name]; !ok {
+						info.ids[n.Name] = len(info.names)
+						info.names = append(info.names, n.Name)
+					}
+				}
+			}
+		}
+	}
+	return info, nil
 }
 
-func wrapPVars(f *ast.File, info *pvarInfo, rep *report) int { return 0 }
+// wrapPVars rewrites every use of a package-level variable inside a function body into
+// (*verifhook.P(id, kind, &v)); kind 0 = read, 1 = write (assignment / inc-dec target),
+// 2 = address taken. Returns the number of wrapped uses.
+func wrapPVars(f *ast.File, info *pvarInfo, rep *report) int {
+	unresolved := map[*ast.Ident]bool{}
+	for _, id := range f.Unresolved {
+		unresolved[id] = true
+	}
+	isPVar := func(id *ast.Ident) bool {
+		if !info.vars[id.Name] {
+			return false
+		}
+		if id.Obj != nil {
+			if id.Obj.Kind != ast.Var {
+				return false
+			}
+			vs, ok := id.Obj.Decl.(*ast.ValueSpec)
+			return ok && info.topSpecs[vs]
+		}
+		return unresolved[id]
+	}
+	n := 0
+	wrap := func(id *ast.Ident, kind int) ast.Expr {
+		n++
+		if rep.PVars == nil {
+			rep.PVars = map[string]int{}
+		}
+		rep.PVars[id.Name]++
+		call := &ast.CallExpr{
+			Fun: &ast.SelectorExpr{X: ast.NewIdent("verifhook"), Sel: ast.NewIdent("P")},
+			Args: []ast.Expr{
+				&ast.BasicLit{Kind: token.INT, Value: strconv.Itoa(info.ids[id.Name])},
+				&ast.BasicLit{Kind: token.INT, Value: strconv.Itoa(kind)},
+				&ast.UnaryExpr{Op: token.AND, X: ast.NewIdent(id.Name)},
+			},
+		}
+		return &ast.ParenExpr{X: &ast.StarExpr{X: call}}
+	}
+	// rewrite walks an expression tree and replaces package-variable identifiers.
+	var rewrite func(e ast.Expr, kind int) ast.Expr
+	var rewriteStmt func(s ast.Stmt)
+	rewriteList := func(es []ast.Expr, kind int) {
+		for i := range es {
+			es[i] = rewrite(es[i], kind)
+		}
+	}
+	rewrite = func(e ast.Expr, kind int) ast.Expr {
+		switch x := e.(type) {
+		case nil:
+			return nil
+		case *ast.Ident:
+			if isPVar(x) {
+				return wrap(x, kind)
+			}
+			return x
+		case *ast.ParenExpr:
+			x.X = rewrite(x.X, kind)
+		case *ast.SelectorExpr:
+			x.X = rewrite(x.X, kind)
+		case *ast.IndexExpr:
+			x.X = rewrite(x.X, kind)
+			x.Index = rewrite(x.Index, 0)
+		case *ast.SliceExpr:
+			// slicing a package-level array or slice hands out a mutable alias: address taken
+			if kind == 0 {
+				kind = 2
+			}
+			x.X = rewrite(x.X, kind)
+			x.Low = rewrite(x.Low, 0)
+			x.High = rewrite(x.High, 0)
+			x.Max = rewrite(x.Max, 0)
+		case *ast.StarExpr:
+			x.X = rewrite(x.X, 0)
+		case *ast.UnaryExpr:
+			if x.Op == token.AND {
+				x.X = rewrite(x.X, 2)
+			} else {
+				x.X = rewrite(x.X, 0)
+			}
+		case *ast.BinaryExpr:
+			x.X = rewrite(x.X, 0)
+			x.Y = rewrite(x.Y, 0)
+		case *ast.CallExpr:
+			// a method call on a package-level variable may have a pointer receiver: address taken
+			if sel, ok := x.Fun.(*ast.SelectorExpr); ok {
+				sel.X = rewrite(sel.X, 2)
+			} else {
+				x.Fun = rewrite(x.Fun, 0)
+			}
+			rewriteList(x.Args, 0)
+		case *ast.TypeAssertExpr:
+			x.X = rewrite(x.X, 0)
+		case *ast.KeyValueExpr:
+			// keys of composite literals are field names / constant indexes: left alone
+			x.Value = rewrite(x.Value, 0)
+		case *ast.CompositeLit:
+			rewriteList(x.Elts, 0)
+		case *ast.FuncLit:
+			rewriteStmt(x.Body)
+		}
+		return e
+	}
+	rewriteStmt = func(s ast.Stmt) {
+		switch x := s.(type) {
+		case nil:
+		case *ast.BlockStmt:
+			for _, st := range x.List {
+				rewriteStmt(st)
+			}
+		case *ast.ExprStmt:
+			x.X = rewrite(x.X, 0)
+		case *ast.AssignStmt:
+			if x.Tok == token.DEFINE {
+				// new local variables on the left: only the right side has uses
+				rewriteList(x.Rhs, 0)
+				// but `a, pkgvar := ...` cannot redeclare a package variable inside a function
+			} else {
+				rewriteList(x.Lhs, 1)
+				rewriteList(x.Rhs, 0)
+			}
+		case *ast.IncDecStmt:
+			x.X = rewrite(x.X, 1)
+		case *ast.ReturnStmt:
+			rewriteList(x.Results, 0)
+		case *ast.IfStmt:
+			rewriteStmt(x.Init)
+			x.Cond = rewrite(x.Cond, 0)
+			rewriteStmt(x.Body)
+			rewriteStmt(x.Else)
+		case *ast.ForStmt:
+			rewriteStmt(x.Init)
+			x.Cond = rewrite(x.Cond, 0)
+			rewriteStmt(x.Post)
+			rewriteStmt(x.Body)
+		case *ast.RangeStmt:
+			x.X = rewrite(x.X, 0)
+			if x.Tok == token.ASSIGN {
+				x.Key = rewrite(x.Key, 1)
+				x.Value = rewrite(x.Value, 1)
+			}
+			rewriteStmt(x.Body)
+		case *ast.SwitchStmt:
+			rewriteStmt(x.Init)
+			x.Tag = rewrite(x.Tag, 0)
+			rewriteStmt(x.Body)
+		case *ast.TypeSwitchStmt:
+			rewriteStmt(x.Init)
+			rewriteStmt(x.Assign)
+			rewriteStmt(x.Body)
+		case *ast.CaseClause:
+			rewriteList(x.List, 0)
+			for _, st := range x.Body {
+				rewriteStmt(st)
+			}
+		case *ast.LabeledStmt:
+			rewriteStmt(x.Stmt)
+		case *ast.DeferStmt:
+			x.Call.Fun = rewrite(x.Call.Fun, 0)
+			rewriteList(x.Call.Args, 0)
+		case *ast.GoStmt:
+			x.Call.Fun = rewrite(x.Call.Fun, 0)
+			rewriteList(x.Call.Args, 0)
+		case *ast.SendStmt:
+			x.Chan = rewrite(x.Chan, 0)
+			x.Value = rewrite(x.Value, 0)
+		case *ast.SelectStmt:
+			rewriteStmt(x.Body)
+		case *ast.CommClause:
+			rewriteStmt(x.Comm)
+			for _, st := range x.Body {
+				rewriteStmt(st)
+			}
+		case *ast.DeclStmt:
+			if gd, ok := x.Decl.(*ast.GenDecl); ok && gd.Tok == token.VAR {
+				for _, sp := range gd.Specs {
+					if vs, ok := sp.(*ast.ValueSpec); ok {
+						rewriteList(vs.Values, 0)
+					}
+				}
+			}
+		}
+	}
+	for _, d := range f.Decls {
+		fd, ok := d.(*ast.FuncDecl)
+		if !ok || fd.Body == nil {
+			continue
+		}
+		rewriteStmt(fd.Body)
+	}
+	return n
+}
